@@ -215,7 +215,7 @@ def to_internal(dop, p):
             return round_half_even(q)
         return float(q)
     if isinstance(cm, D.TextTable):
-        hits = [lo for lo, hi, t in cm.scales if t == p]
+        hits = [cm.inverse(lo, t) for lo, hi, t in cm.scales if t == p]
         return hits[0] if len(hits) == 1 else None
     raise Unsupported(type(cm).__name__)
 
@@ -378,7 +378,7 @@ def gen_simple(rng, dop, tries=40):
                 x = rng.choice([lo, hi, rng.randint(lo, hi)])
         elif isinstance(cm, D.TextTable):
             lo, hi, t = rng.choice(cm.scales)
-            x = lo
+            x = cm.inverse(lo, t)
         elif isinstance(cm, D.OtherCompu):
             raise Unsupported("compu category " + cm.category)
         if canonical_internal(dop, x):
